@@ -10,14 +10,19 @@ DRV = 'drv_c02'
 
 REGISTRY = {
     'id': 'C02',
-    'text': 'Lean: kernel-checked table obligations over modules generated from constants.py / data/chem.txt on every run '
-            '(24 residue formulas = hand-typed formulas; 21 NIST nuclide masses within 1e-8; average masses within 1e-6; particle '
-            'constants; ion-offset tables = backbone chemistry) and theorems that the executable model of mass/mz/adjust_mass equals '
-            'the specification sum (residues + water/ion offset + mult x mod mass + charge term + isotope x neutron + loss); the model '
-            'is tied to /repo by differential correspondence at 1e-7 Da and the implementation is compared with the hand-typed NIST '
-            'reference at 1e-5 Da (monoisotopic) / 2e-3 Da (average)',
-    'note': 'trusted: Lean kernel; translator of the two tables; hand-typed NIST/CODATA reference data; modification name resolution '
-            'is a parameter of the model (property C10); float summation error bounded by the 1e-7 correspondence tolerance',
+    'text': 'Lean (12 theorems): kernel-checked table obligations over modules regenerated from constants.py / data/chem.txt on every run '
+            '(24 residue formulas = hand-typed formulas; 21 NIST nuclide masses within 1e-8; average masses within 1e-6; CODATA particles '
+            'and |PROTON_MASS - (m(1H) - m_e)| <= 2e-8; ion-offset tables = backbone chemistry for 18 ion types x 2 modes) and '
+            'mass_eq_spec_partial / mz_eq_spec_partial: for every annotation in the specification domain (any placement and multiplier, '
+            'global rules, any charge, isotope offset, loss, precision, both modes) the executable model of mass / mz equals residues + '
+            'ion offset + sum mult x mod mass + charge term + isotope x neutron + loss, rounded last; precision_bound; the adduct arithmetic '
+            'of the current code is characterised exactly (adductMass_discrepancy) with a counter-example theorem for the full statement. '
+            'The model is tied to /repo by differential correspondence at 1e-7 Da (both code paths, all derived tables) and the '
+            'implementation is compared with the hand-typed NIST reference at 1e-5 Da (monoisotopic) / 2e-3 Da (average)',
+    'note': 'trusted: Lean kernel; translator of the two tables; hand-typed NIST/CODATA reference data; modification name resolution and '
+            'static-rule text parsing are parameters of the model (C10 / C12); float summation error bounded by the 1e-7 correspondence '
+            'tolerance. Not proved, correspondence + oracle only: adduct lists as a whole (known finding KF-C02-adduct-electron-count), '
+            'the isotope-label path against a label-substituting specification (C12)',
     'technique': 'Lean 4 proof about executable model + generated tables checked by kernel evaluation + differential correspondence '
                  '+ independent reference oracle',
 }
@@ -240,7 +245,7 @@ def run(chk):
 
     # ------------------------------------------------------------------ mass / mz : model correspondence
     corpus = [case_of(o) for o in load_corpus(PID)]
-    n_rand = 1500 if tier == 'quick' else 40000
+    n_rand = 1500 if tier == 'quick' else 25000
     if chk.broken():
         n_rand *= 2
     cases = list(corpus)
@@ -355,7 +360,7 @@ def run(chk):
     chk.oracle('residue_masses_vs_reference', list(res_ref), o_residue)
 
     # ------------------------------------------------------------------ oracle 2: mass = specification sum over the NIST reference
-    budget = (1200 if tier == 'quick' else 30000) * (3 if chk.broken() else 1)
+    budget = (1200 if tier == 'quick' else 20000) * (3 if chk.broken() else 1)
     ocases = [c for c in corpus if in_domain(*c)]
     while len(ocases) < budget:
         a = cm.gen_annotation(rng, kinds=cm.APRIORI)
